@@ -261,6 +261,38 @@ def run(env, res):
                     break
             if res.failures:
                 break
+        # one LONG history: many distinct texts through the same cache, every earlier text revisited at growing
+        # distances (whatever bound a cache has, a text parsed long ago must still be read as itself)
+        if not res.failures:
+            meaning = {}
+            for i in range(700):
+                meaning['%d + %d' % (i, i * 7 % 13)] = i + i * 7 % 13
+            for i in range(300):
+                meaning["'s%d'" % i] = 's%d' % i
+            many = list(meaning)
+            rng.shuffle(many)
+            seen_texts = []
+            for step, t in enumerate(many[:400 if tier == 'quick' else 1000]):
+                seen_texts.append(t)
+                todo = [t]
+                for back in (1, 2, 63, 64, 65, 127, 128, 129, 255, 256, 257, 511, 512, 513):
+                    if step % 7 == 0 and back <= len(seen_texts) - 1:
+                        todo.append(seen_texts[-1 - back])
+                for u in todo:
+                    try:
+                        got = ['val', repr(yaql.eval(u))]
+                    except Exception as e:  # noqa
+                        got = ['err', type(e).__name__]
+                    want = ['val', repr(meaning[u])]        # what the text spells (an integer sum / a string literal)
+                    stats['eval_cache_parses'] += 1
+                    if got != want:
+                        report('oracle', 'history-dependence',
+                               'yaql.eval(%r) after %d other texts went through the same cache returned %r; the text '
+                               'spells %r' % (u, step, got, want), dict(kind='eval-long-history', step=step, text=u))
+                        break
+                if res.failures:
+                    break
+            stats['histories'] += 1
 
     # ---------------------------------------------------------------- (c) free-running stress (supporting)
     if cases is None and not res.failures:
